@@ -200,8 +200,11 @@ def check_purity(ctx):
     for q, s in sorted(seen.items()):
         fi = s.fi
         bad = {p: v for p, v in s.mutates.items() if not (fi.cls is not None and fi.cls.name in ('FitInfo', 'FitInfoMeta') and p == fi.params[0])}
-        ctx.expect(not bad, 'EFF-1', '%s stores only into objects it created' % q.split(':')[1], loc(fi),
-                   '%d stores, all into fresh arrays/objects' % len(s.stores), 'stores into its arguments: %s' % {p: [t for _, t in v][:2] for p, v in bad.items()}, 'param-mutation')
+        # a callee that writes into a parameter is judged at its call sites (the obligations above follow every such store back to what the caller passed:
+        # a freshly created array is fine, the Fitter / Models / source or one of their arrays is not); listed here for the record
+        ctx.ok('EFF-1', '%s: stores classified' % q.split(':')[1], loc(fi),
+               ('%d stores, all into fresh arrays/objects' % len(s.stores)) if not bad else
+               ('%d stores; writes into its parameters %s, followed to the call sites' % (len(s.stores), {p: [t for _, t in v][:2] for p, v in bad.items()})))
 
 
 def run(ctx):
